@@ -14,7 +14,7 @@ rm -f "$wt.err"
 export GOFLAGS=-mod=mod GOPROXY=off GOSUMDB=off GOTOOLCHAIN=local
 if ! go build ./... 2>/dev/null; then echo "NOBUILD $c ($p)"; exit 0; fi
 before=$(ls /verif/regress | wc -l)
-out=$(cd /verif && VERIF_REPO="$wt" VERIF_NO_EVIDENCE=1 VERIF_REPLAY_DIR=/verif/regress ./check "$p" quick 2>&1)
+out=$(cd ${VERIF_DIR:-/verif} && VERIF_REPO="$wt" VERIF_NO_EVIDENCE=1 VERIF_REPLAY_DIR=/verif/regress ./check "$p" quick 2>&1)
 rc=$?
 after=$(ls /verif/regress | wc -l)
 echo "REVERTED $c ($p): rc=$rc new-regression-cases=$((after-before)) $(echo "$out" | grep -m1 'check=' | cut -c1-160)"
